@@ -1112,9 +1112,14 @@ class Evaluator:
                             if xs_ is not None and xs_["k"] == "CXXConstructExpr" and (xs_.get("ct") or "").replace("const ", "").strip() in self.prog.records:
                                 if not self._construct(e["field"] + ".", xs_, x_):
                                     try:
-                                        self.ev(x_)
+                                        v_ = self.ev(x_)
+                                        if isinstance(v_, tuple) and v_ and v_[0] == "str":
+                                            self.env[e["field"]] = v_       # a string member initialised from a string value
+                                            self.stores.append((e["field"], v_))
+                                    except Thrown:
+                                        raise
                                     except Unknown:
-                                        pass
+                                        self.env.pop(e["field"], None)
                             else:
                                 try:
                                     v_ = self.ev(x_)
